@@ -120,6 +120,43 @@ theorem central_error_bound (fp fm fp' fm' f0 d c M δ h : K) (hh : 0 < h)
   rw [e2]
   linarith
 
+/-- **documented total error of the executed forward rule, `O(√acc)`**: `forwardDiff` run with the step it selects itself
+(`h = stepH √acc y0 = √acc·s`, `s = max(|y0|, 0.1)`) on a function `f` whose values are within the *stated accuracy*
+`acc·F` of a function `g` that obeys the second-order Taylor bound at that step: the estimate is within
+`(M·s/2 + 2F/s)·√acc` of the derivative `d`.  (`rt` plays `√acc`: `rt² = acc`.) -/
+theorem forward_total_error (g f : K → K) (rt acc y0 fy0 d M F : K) (hrt : 0 < rt) (hacc : rt ^ 2 = acc)
+    (taylor : |g (y0 + stepH rt y0) - g y0 - d * stepH rt y0| ≤ M * stepH rt y0 ^ 2 / 2)
+    (rp : |f (y0 + stepH rt y0) - g (y0 + stepH rt y0)| ≤ acc * F) (r0 : |fy0 - g y0| ≤ acc * F) :
+    |forwardDiff f rt y0 fy0 - d| ≤ (M * max |y0| (1 / 10) / 2 + 2 * F / max |y0| (1 / 10)) * rt := by
+  obtain ⟨e, hpos, -, -, -⟩ := step_nonzero_and_scaled rt y0 hrt
+  have hs : (0 : K) < max |y0| (1 / 10) := lt_of_lt_of_le (by norm_num) (le_max_right _ _)
+  have b := forward_error_bound (g (y0 + stepH rt y0)) (g y0) (f (y0 + stepH rt y0)) fy0 d M (acc * F) (stepH rt y0) hpos
+    taylor rp r0
+  have eq : M * stepH rt y0 / 2 + 2 * (acc * F) / stepH rt y0
+      = (M * max |y0| (1 / 10) / 2 + 2 * F / max |y0| (1 / 10)) * rt := by
+    rw [e, ← hacc]; field_simp
+  unfold forwardDiff
+  simpa only [eq] using b
+
+/-- **documented total error of the executed central rule, `O(acc^{2/3})`**: `centralDiff` with its own step
+`h = ∛acc·s` on values within `acc·F` of a function obeying third-order Taylor bounds on both sides: the estimate is
+within `(M·s²/6 + F/s)·(∛acc)²` of `d`.  (`ct` plays `∛acc`: `ct³ = acc`.) -/
+theorem central_total_error (g f : K → K) (ct acc y0 d c M F : K) (hct : 0 < ct) (hacc : ct ^ 3 = acc)
+    (tp : |g (y0 + stepH ct y0) - (g y0 + d * stepH ct y0 + c * stepH ct y0 ^ 2)| ≤ M * stepH ct y0 ^ 3 / 6)
+    (tm : |g (y0 - stepH ct y0) - (g y0 - d * stepH ct y0 + c * stepH ct y0 ^ 2)| ≤ M * stepH ct y0 ^ 3 / 6)
+    (rp : |f (y0 + stepH ct y0) - g (y0 + stepH ct y0)| ≤ acc * F)
+    (rm : |f (y0 - stepH ct y0) - g (y0 - stepH ct y0)| ≤ acc * F) :
+    |centralDiff f ct y0 - d| ≤ (M * max |y0| (1 / 10) ^ 2 / 6 + F / max |y0| (1 / 10)) * ct ^ 2 := by
+  obtain ⟨e, hpos, -, -, -⟩ := step_nonzero_and_scaled ct y0 hct
+  have hs : (0 : K) < max |y0| (1 / 10) := lt_of_lt_of_le (by norm_num) (le_max_right _ _)
+  have b := central_error_bound (g (y0 + stepH ct y0)) (g (y0 - stepH ct y0)) (f (y0 + stepH ct y0))
+    (f (y0 - stepH ct y0)) (g y0) d c M (acc * F) (stepH ct y0) hpos tp tm rp rm
+  have eq : M * stepH ct y0 ^ 2 / 6 + acc * F / stepH ct y0
+      = (M * max |y0| (1 / 10) ^ 2 / 6 + F / max |y0| (1 / 10)) * ct ^ 2 := by
+    rw [e, ← hacc]; field_simp
+  unfold centralDiff
+  simpa only [eq] using b
+
 /-- **gradient / Jacobian entries are the scalar rule on the coordinate restriction**: if along coordinate `i`
 through `y` the function is affine, `f(y[i:=t]) = a·t + b` for all `t`, the forward entry is exactly `a`; if it is
 quadratic the central entry is exactly `2a·yᵢ + b` -/
